@@ -120,6 +120,34 @@ def main():
                                                 'cfg': {'lmtp': lmtp, 'pipelining': pipe, 'kind': 'smtp', 'pool_size': ps, 'idle': 5, 'maxconn': max(8, r.nconn),
                                                         'sched': 'cskcsc'}, 'ev': ev}, separators=(',', ':')) + '\n')
                             n += 1
+    # ---- directed: the downstream sends a reply line nobody asked for behind its answer to the message (or behind its greeting),
+    # in the same segment or later, while the next request is already waiting: that request must get its own answers
+    if shard == 2 % nshards or not quick:
+        for lmtp in (False, True):
+            for pipe in (False, True):
+                for where in ('eod', 'banner', 'ehlo'):
+                    for realfd in (False, True):
+                        for second in (250, 550, 450):
+                            if where != 'eod' and not realfd:
+                                continue        # (without a descriptor to poll, what still sits in the socket cannot be noticed: not a faithful peer)
+                            dk += 1
+                            if (quick and dk % 2) or (not quick and (dk + 3) % nshards != shard):
+                                continue
+                            sc0 = {where: ({0: 'extra250'} if where == 'eod' else 'extra250')}
+                            if where == 'eod':
+                                sc0['eod'][1] = second
+                            else:
+                                sc0['eod'] = {0: second}
+                            r = rdrv.RelayRun(lmtp, pipe, [sc0, {'eod': {0: second}}], pool_size=1, idle_timeout=5, realfd=realfd)
+                            r.attempt(1, 1)
+                            r.attempt(2, 1)
+                            r.tick_small()
+                            ev = r.run_to_end()
+                            stats['executions'] += 1
+                            f.write(json.dumps({'id': shard + n * nshards, 'cls': 'stray-reply',
+                                                'cfg': {'lmtp': lmtp, 'pipelining': pipe, 'kind': 'smtp', 'pool_size': 1, 'idle': 5, 'maxconn': max(8, r.nconn),
+                                                        'sched': 'ccs'}, 'ev': ev}, separators=(',', ':')) + '\n')
+                            n += 1
     # ---- the HTTP relay's pool: real HttpRelay against a loopback peer, several attempts, keep-alive on and off
     from harness import hdrv
     HACTS = ['ok200', 'ok200body', 'ok200chunked', 'hdr450body', 'ok204plain', 'hdr550', 'hdr450', 'plain500', 'plain404', 'close', 'garbage', 'stall']
